@@ -21,6 +21,7 @@ mod c18;
 mod c19;
 mod refm;
 mod report;
+mod seq;
 
 use report::*;
 use serde_json::Value;
@@ -61,6 +62,7 @@ fn main() {
     id: id.clone(), tier, seed, verif_dir: verif_dir.clone(), start: Instant::now(), config,
     findings: Findings::load(&verif_dir), budget_s,
   };
+  SEQ_HOOK.set(seq::hook).ok();
   let self_check = std::panic::catch_unwind(|| { refm::self_check(); refm::r3_self_check(); });
   if self_check.is_err() {
     eprintln!("[hpxmc] MACHINERY ERROR: reference-model self check failed");
@@ -72,6 +74,10 @@ fn main() {
     let kind = doc["kind"].as_str().unwrap_or("").to_string();
     let api = doc["api"].as_str().unwrap_or("").to_string();
     let run = || -> Option<Viol> {
+      if case.get("sequence_alphabet").is_some() {
+        let (alpha, _) = seq::alphabet(case["sequence_alphabet"].as_str().unwrap()).expect("unknown call-sequence alphabet");
+        return seq::replay(case, &alpha);
+      }
       match id.as_str() {
         "C01" => c01::replay(case, false),
         "C02" => c01::replay(case, true),
